@@ -5523,7 +5523,10 @@ int32_t matrixSslEncodeClientHello(ssl_t *ssl, sslBuf_t *out,
 #  endif /* USE_TLS_1_2 */
 
     /* Add any user-provided extensions. */
-    psAddUserExtToSession(ssl, userExt);
+    if (psAddUserExtToSession(ssl, userExt) < 0)
+    {
+        return SSL_MEM_ERROR;
+    }
     ext = userExt;
     if (ext && extLen == 0)
     {
